@@ -176,6 +176,13 @@ func (s *StateJ) canon() {
 		s.Failing = []string{}
 	}
 	sort.Strings(s.Failing)
+	dedup := s.Failing[:0]
+	for i, x := range s.Failing {
+		if i == 0 || x != s.Failing[i-1] {
+			dedup = append(dedup, x)
+		}
+	}
+	s.Failing = dedup
 	sort.Slice(s.Hb, func(i, j int) bool { return s.Hb[i].I < s.Hb[j].I })
 	sort.Ints(s.Leaders)
 	sort.Ints(s.Shards)
